@@ -23,7 +23,7 @@ SKIPPED = object()
 STRINGS = ['', 'a', 'abc', 'Hello World', 'héllo', 'ÀÉÎ', 'ß', 'straße', 'a%20b', '%41%42', 'a+b', '100%', '%zz', '%C3%A9', '%E9', 'x-y-z', 'arn:aws:s3:::bucket',
            '12', '-7', '+3', '007', '1.5', 'abc12', 'true', 'TRUE', 'False', 'yes', '2024-01-01T00:00:00Z', '2024-01-01T00:00:00+05:30', 'not a date', '{"a": [1, 2]}',
            '[1, "x", null]', '{"a": ', '9223372036854775807', '9223372036854775808', 'ǆ', 'İ']
-OTHERS = [0, 5, -3, 2.5, True, False, None, [], ['a', 'b'], {'k': 'v'}, ['a', 1]]
+OTHERS = [0, 5, -3, 2.5, -1.5, -0.25, -2.0, -7.9, 0.99, 1e10, True, False, None, [], ['a', 'b'], {'k': 'v'}, ['a', 1]]
 
 
 def ref(fn, v, extra=()):
@@ -141,8 +141,11 @@ def single_value_cases(ctx, thorough):
                     continue
                 cases.append((fn, v, ex, exp))
     if not thorough:
-        rng.shuffle(cases)
-        cases = cases[:500]
+        # every function on every non-string value and on the numeric-looking strings always; a seeded sample of the rest
+        core = [c for c in cases if not isinstance(c[1], str) or re.fullmatch(r'[+-]?[0-9.]+', c[1])]
+        rest = [c for c in cases if c not in core]
+        rng.shuffle(rest)
+        cases = core + rest[:max(0, 600 - len(core))]
     ops, meta = [], []
     for fn, v, ex, exp in cases:
         doc = {'v': v, 'w': [v, v]}
@@ -222,11 +225,23 @@ def collection_cases(ctx):
     T.append(('let p = json_parse(%s)\nrule t { %%p == D }\nrule u { %%p.k[1].z is_null }\n' % lit(json.dumps(docs[0]['D'])), 'PASS'))    # json_parse(JSON text of D) == D
     T.append(('let p = json_parse(%s)\nrule t { %%p.s == "t" }\n' % lit(json.dumps(docs[0]['D'], indent=2)), 'PASS'))
     T.append(('let n = count(l[*].n)\nrule t when %n >= 3 {\n  let m = %n\n  %m in [3, 4]\n  %n < 4\n}\n', 'PASS'))     # a result behaves like any value
-    ops = [{'op': 'eval', 'rules': r, 'data': json.dumps(docs[0]), 'loader': 'json'} for r, _ in T]
+    T = [(r, w, docs[0]) for r, w in T]
+    # join against the reference on EVERY list of up to 3 strings over {'', 'a', 'b,'} x 3 delimiters; count on EVERY pattern of
+    # present / missing members up to length 4
+    import itertools
+    for n_ in range(1, 4):
+        for combo in itertools.product(['', 'a', 'b,'], repeat=n_):
+            for delim in (',', '', '-'):
+                T.append(('let j = join(x[*], %s)\nrule t { %%j == %s }\n' % (lit(delim), lit(delim.join(combo))), 'PASS', {'x': list(combo)}))
+    for n_ in range(1, 5):
+        for pat in itertools.product([True, False], repeat=n_):
+            d = {'x': [({'n': 'v%d' % i} if p else {'m': i}) for i, p in enumerate(pat)]}
+            T.append(('let c = count(x[*].n)\nrule t { %%c == %d }\n' % sum(pat), 'PASS', d))
+    ops = [{'op': 'eval', 'rules': r, 'data': json.dumps(d), 'loader': 'json'} for r, _, d in T]
     res = impl.run_ops_parallel(ops, ctx.wd, 'c18coll')
     n = 0
-    for (rules, want), r in zip(T, res):
-        info = {'class': 'function-collection', 'rules': rules, 'data': json.dumps(docs[0])}
+    for (rules, want, doc_), r in zip(T, res):
+        info = {'class': 'function-collection', 'rules': rules, 'data': json.dumps(doc_)}
         d = r.get('res')
         if 'panic' in r or 'abort' in r or not isinstance(d, dict):
             ctx.failing('a function program crashes: %s' % str(r)[:150], info, found=True)
